@@ -175,7 +175,13 @@ def run_job(job, pools_ok, cache=None):
                 await asyncio.wait([task], timeout=5)
             else:
                 if task.cancelled():
-                    kind, v = 'raised', ('cancelled',)
+                    # the CancelledError that ended chart.run: one that a node body raised on its own carries its token
+                    try:
+                        task.exception()
+                        cex = None
+                    except asyncio.CancelledError as ce:
+                        cex = ce
+                    kind, v = 'raised', (rt.err_token(cex) if cex is not None else ('cancelled',))
                 elif task.exception() is not None:
                     kind, v = 'raised', rt.err_token(task.exception())
                 else:
